@@ -36,6 +36,26 @@ def arakawa_names(ctx: Context, rule: str) -> None:
               st or alt or (stores[0] if stores else fi.node), construct=f"self.coordinate_names = {norm_text(stores[0].value)[:100] if stores else 'never assigned'}")
 
 
+def cf_grid_names(ctx: Context, rule: str) -> None:
+    """CFGrid(ds, latitude=..., longitude=...): each name is an independent override, so the topology receives the given names
+    whenever either is given (the other one is detected)."""
+    fi = ctx.func('emsarray.conventions.grid.CFGrid.__init__')
+    calls = [c for c in calls_in(fi) if norm_text(c.func) == 'self.topology_class' and kwarg(c, 'latitude') is not None and kwarg(c, 'longitude') is not None]
+    ok, why = False, 'the names are never handed to the topology'
+    if len(calls) == 1:
+        c = calls[0]
+        passes = norm_text(kwarg(c, 'latitude')) == 'latitude' and norm_text(kwarg(c, 'longitude')) == 'longitude' \
+            and 'latitude' in fi.params and 'longitude' in fi.params
+        conds = [(norm_text(t), pol) for t, pol in path_conditions(fi, c)]
+        either = any(pol and t in ('latitude is not None or longitude is not None', 'longitude is not None or latitude is not None') for t, pol in conds) or \
+            any((not pol) and t in ('latitude is None and longitude is None', 'longitude is None and latitude is None') for t, pol in conds)
+        both_only = any(pol and t in ('latitude is not None', 'longitude is not None') for t, pol in conds)
+        ok = passes and either and not both_only
+        why = f"topology_class(dataset, latitude=latitude, longitude=longitude) under {conds}"
+    ctx.check(rule, ok, "a hand built CF grid convention hands the latitude / longitude names it was given to its topology when either one is given "
+              "(given alone, a name used to be ignored and the grid built from whatever the detection finds first)", fi, calls[0] if calls else fi.node, construct=why)
+
+
 def class_state(ctx: Context, rule: str, package_prefix: str = 'emsarray.conventions') -> None:
     """No method mutates, in place, a container that lives on a class: detection (a classmethod reading class
     attributes) would then depend on which instances were created before."""
